@@ -8,7 +8,7 @@ PROPMAP = {  # reversed fix commit -> properties expected to notice
  'debf372': ['C16', 'C03'], '9aeba53': ['C16'], 'd31c1f5+688f6ba+7805628+ac2519d+ddb472f': ['C03'], '843244d+536948b': ['C17'], '843244d+1a1484c': ['C17'], 'f8a7db3+11dfba4': ['C03', 'C05'], 'd31c1f5+688f6ba': ['C06'], '50305e8': ['C03'], 'c62ef1c': ['C03'], '4039241': ['C05', 'C03'],
  'f08ee02': ['C03'], '11dfba4': ['C03'], 'ac2519d': ['C03'], '779ceca': ['C03'], '0eed86a': ['C06'], '5e7d8dd': ['C06'], '9621f03': ['C05'],
  '0e7cbb6': ['C07'], '04ec5e6': ['C19'], '1028aaf': ['C08'], 'd346f58': ['C09'], '5f1d691': ['C09'], '86bbeba': ['C18'], '68198ea': ['C17'],
- '0fbfc11': ['C13'], '4fcee2b': ['C11'], 'fb72df7': ['C09'], '39aa9de': ['C06'], '3da0903': ['C06'], 'd31c1f5': ['C06'], '7805628': ['C03'], '8a46c9a': ['C03'], '688f6ba': ['C06'], '843244d': ['C17'], '9b2c365': ['C09'], 'f8a7db3': ['C05'], 'b4aff4a': ['C09'], 'c5d8646': ['C09'], '28eaa91': ['C08'], '1a1484c': ['C17'], 'd585833': ['C04', 'C03'], '536948b': ['C17'],
+ '0fbfc11': ['C13'], '4fcee2b': ['C11'], 'fb72df7': ['C09'], '39aa9de': ['C06'], '3da0903': ['C06'], 'd31c1f5': ['C06'], '7805628': ['C03'], '8a46c9a': ['C03'], '688f6ba': ['C06'], '843244d': ['C17'], '9b2c365': ['C09'], 'f8a7db3': ['C05'], 'b4aff4a': ['C09'], 'c5d8646': ['C09'], '28eaa91': ['C08'], '1a1484c': ['C17'], 'd585833': ['C04', 'C03'], '536948b': ['C17'], '95ee053': ['C12'],
 }
 def run(cmd):
     return subprocess.run(cmd, shell=True, stdout=subprocess.PIPE, stderr=subprocess.STDOUT, text=True)
